@@ -37,8 +37,14 @@ class EvaluatorContext(ast_nodes.EvalContext):
             raise CycleError(
                 f'Cycle detected for {addr}:\n- ' + '\n- '.join(path))
 
-        value = self._cell_values[addr] = self.evaluator.evaluate(
+        value = self.evaluator.evaluate(
             addr, EvaluatorContext(self.evaluator, addr, path))
+        # A function may hand back a native Python value (COUNT returns an
+        # int, ISTEXT a bool): for the formulas that use the cell it is an
+        # Excel value like any other.
+        if type(value) in func_xltypes.NATIVE_TO_XLTYPE:
+            value = func_xltypes.ExcelType.cast_from_native(value)
+        self._cell_values[addr] = value
         return value
 
 
